@@ -273,7 +273,7 @@ def same(a: Any, b: Any) -> Any:
     return to_z3(a) == to_z3(b)
 
 
-def compare(E: Engine, st: PyState, res: Dict[str, Any], spec: Dict[str, Any], tag: str) -> bool:
+def compare(E: Engine, st: PyState, res: Dict[str, Any], spec: Dict[str, Any], tag: str, with_memory: bool = True) -> bool:
     """obligations: every observable of the real loop equals pyspec's (same path condition)."""
     items: List[Tuple[Any, str]] = []
     add = lambda c, l: items.append((c, f'{tag}: {l}'))  # noqa: E731
@@ -298,6 +298,7 @@ def compare(E: Engine, st: PyState, res: Dict[str, Any], spec: Dict[str, Any], t
     in_space = z3.And(k >= 0, k < (1 << st.w))
     valid_eng = z3.Or(z3.Select(mem.present, k), st.in_zero_range(k))
     valid_spec = z3.Or(z3.Select(smem.present, k), st.in_zero_range(k))
-    add(z3.Implies(in_space, valid_eng == valid_spec), 'set of valid words')
-    add(z3.Implies(z3.And(in_space, valid_eng), mem.alpha(k) == smem.alpha(k)), 'final memory')
+    if with_memory:
+        add(z3.Implies(in_space, valid_eng == valid_spec), 'set of valid words')
+        add(z3.Implies(z3.And(in_space, valid_eng), mem.alpha(k) == smem.alpha(k)), 'final memory')
     return E.prove_all(items, detail=image_reader(st, list(mem.keys) + list(smem.keys)))
